@@ -46,6 +46,7 @@ def run(ctx):
     _init(ctx, methods)
     version_immutable(ctx, 'C18.D2')
     _hash(ctx, methods)
+    _suffix_transform(ctx, m, methods)
     _nearest(ctx, m, methods)
     nearest_pure(ctx, 'C18.D4')
 
@@ -974,6 +975,99 @@ def nearest_pure(ctx, rule):
                           file=F, line=n.lineno, engine='E6')
         else:
             ctx.error(rule, 'nearest() memo %s keyed by `%s`: not decided' % (cname, kt[:60]))
+
+
+_COARSE = (('int', "the suffixes 'rc1' and 'rc01' (or 'beta7' / 'beta07')"), ('float', "the suffixes 'rc1' and 'rc1.0'"),
+           ('lower', "the suffixes 'RC1' and 'rc1'"), ('upper', "the suffixes 'RC1' and 'rc1'"), ('casefold', "the suffixes 'RC1' and 'rc1'"),
+           ('strip', "the suffixes 'a' and 'a '"), ('lstrip', "the suffixes 'a' and ' a'"), ('rstrip', "the suffixes 'a' and 'a '"))
+
+
+def _suffix_transform(ctx, m, methods):
+    """(D3) == must not be coarser than hash: when _cmp compares the suffixes through a function (a helper that splits
+    off embedded numbers, a case fold, a strip) and __hash__ hashes the raw suffix, two versions whose suffixes differ only
+    in what the function forgets are equal with different hashes."""
+    cmpf, hashf = methods.get('_cmp'), methods.get('__hash__')
+    if cmpf is None or hashf is None:
+        return
+    s_ = cmpf.args.args[0].arg
+    o_ = cmpf.args.args[1].arg if len(cmpf.args.args) > 1 else 'other'
+    calls = {}
+    for n in walk_no_nested(cmpf):
+        if isinstance(n, ast.Call) and len(n.args) == 1 and not n.keywords and isinstance(n.func, ast.Name):
+            a = norm(n.args[0])
+            if a in ('%s.version_extra' % s_, '%s.version_extra' % o_):
+                calls.setdefault(n.func.id, set()).add(a)
+    # the same, after the helper was read at its call sites (normal form): locals derived from both suffixes through a
+    # forgetting primitive and then compared
+    assigns = {}
+    for n in walk_no_nested(cmpf):
+        if isinstance(n, ast.Assign) and len(n.targets) == 1 and isinstance(n.targets[0], ast.Name):
+            assigns.setdefault(n.targets[0].id, []).append(n.value)
+
+    def derive(name, seen):
+        prims, roots = set(), set()
+        if name in seen:
+            return prims, roots
+        seen.add(name)
+        for v in assigns.get(name, []):
+            for x in ast.walk(v):
+                if isinstance(x, ast.Call):
+                    prims.add(norm(x.func).split('.')[-1])
+                elif isinstance(x, ast.Attribute) and norm(x) in ('%s.version_extra' % s_, '%s.version_extra' % o_):
+                    roots.add(norm(x))
+                elif isinstance(x, ast.Name) and x.id in assigns:
+                    p2, r2 = derive(x.id, seen)
+                    prims |= p2
+                    roots |= r2
+        return prims, roots
+    hs0 = hashf.args.args[0].arg
+    htext0 = ' '.join(norm(x) for x in body_wo_doc(hashf))
+    for n in walk_no_nested(cmpf):
+        if isinstance(n, ast.Compare) and len(n.ops) == 1 and isinstance(n.left, ast.Name) and isinstance(n.comparators[0], ast.Name) \
+                and isinstance(n.ops[0], (ast.Eq, ast.NotEq, ast.Lt, ast.Gt, ast.LtE, ast.GtE)):
+            pa, ra = derive(n.left.id, set())
+            pb, rb = derive(n.comparators[0].id, set())
+            if {'%s.version_extra' % s_, '%s.version_extra' % o_} <= (ra | rb) and ra and rb:
+                hit = [(k, w) for k, w in _COARSE if k in pa and k in pb]
+                if hit and ('%s(' % hit[0][0]) not in htext0 and ('.%s(' % hit[0][0]) not in htext0:
+                    k, w = hit[0]
+                    ctx.violation('C18.D3', '%s::Version._cmp / __hash__' % F, norm(n),
+                                  "Version('3.0rc1') == Version('3.0rc01') is True (%s compare equal once %s() was applied to them) "
+                                  "but their hashes differ: __hash__ hashes the raw suffix -- a dict keyed by versions misses, set() "
+                                  "keeps both" % (w, k),
+                                  '_cmp compares values derived from the suffixes through %s() (`%s`), __hash__ hashes the raw suffix: '
+                                  'equal versions with different hashes' % (k, norm(n)), file=F, line=n.lineno, engine='E6')
+                    return
+    for fname, args in sorted(calls.items()):
+        if len(args) != 2:
+            continue
+        hs = hashf.args.args[0].arg
+        htext = ' '.join(norm(x) for x in body_wo_doc(hashf))
+        if '%s(%s.version_extra)' % (fname, hs) in htext:
+            ctx.ob('C18.D3', '_cmp compares the suffixes through %s(), and __hash__ hashes %s() of the suffix too' % (fname, fname),
+                   True, '%s:%d' % (F, hashf.lineno))
+            continue
+        try:
+            hf = m.func(MOD, fname)
+        except AnalysisError:
+            if fname in ('str', 'repr', 'tuple', 'list'):
+                continue
+            ctx.error('C18.D3', '_cmp compares %s(suffix) but __hash__ does not hash it; %s is not a function of version.py: not decided'
+                      % (fname, fname))
+            continue
+        used = {norm(c.func).split('.')[-1] for c in ast.walk(hf) if isinstance(c, ast.Call)}
+        hit = [(k, w) for k, w in _COARSE if k in used]
+        if hit:
+            k, w = hit[0]
+            ctx.violation('C18.D3', '%s::Version._cmp / __hash__' % F, '%s(%s.version_extra) vs %s(%s.version_extra)' % (fname, s_, fname, o_),
+                          "Version('3.0rc1') == Version('3.0rc01') is True (%s compare equal through %s(), which applies %s()) but "
+                          "their hashes differ: __hash__ hashes the raw suffix -- a dict keyed by versions misses, set() keeps both"
+                          % (w, fname, k),
+                          '_cmp compares the suffixes through %s() (not injective: it applies %s()), __hash__ hashes the raw suffix: '
+                          'equal versions with different hashes' % (fname, k), file=F, line=cmpf.lineno, engine='E6')
+        else:
+            ctx.error('C18.D3', '_cmp compares %s(suffix) but __hash__ hashes the raw suffix; whether %s() is injective is not decided'
+                      % (fname, fname))
 
 
 def version_immutable(ctx, rule):
